@@ -560,12 +560,16 @@ def validate (P : Parse) (unwrap : Bool) (c : Case) : Bool :=
 
 /-- What the client and the resolver see. `invalid`: ParseAndValidate rejects, nothing runs.
     `reqErr`: CoerceVariableValues fails, nothing runs. `fieldErr`: CoerceArgumentValues fails in
-    `executeField`, the resolver is not called. `invoked args`: the resolver (filter) runs and
-    observes exactly `args`. -/
+    `executeField`, the resolver is not called and the client gets a field error. `dropped`:
+    CoerceArgumentValues fails for a *directive* in `collectFieldsImpl`
+    (`err == nil && !def.FieldCollectionFilter(arguments)`): the filter is not called, the
+    selection is kept and **no error is reported** (open finding F-05f). `invoked args`: the
+    resolver (filter) runs and observes exactly `args`. -/
 inductive Outcome where
   | invalid
   | reqErr
   | fieldErr
+  | dropped
   | invoked (args : List (String × GoVal))
   deriving Repr, Inhabited
 
@@ -579,8 +583,13 @@ def coerceCase (P : Parse) (c : Case) : Outcome :=
     | none => .fieldErr
     | some args => .invoked args
 
-/-- `graphql.Execute`: validate, then coerce, then (only on success) call the resolver. -/
+/-- `graphql.Execute`: validate, then coerce, then (only on success) call the resolver or the
+    directive's filter. A directive's coercion error is dropped (executor.go:497). -/
 def run (P : Parse) (unwrap : Bool) (c : Case) : Outcome :=
-  if validate P unwrap c then coerceCase P c else .invalid
+  if validate P unwrap c then
+    match coerceCase P c, c.site with
+    | .fieldErr, .directive => .dropped
+    | o, _ => o
+  else .invalid
 
 end ApiFu.C05
